@@ -3,6 +3,7 @@
 
 import dill
 import multiprocessing
+import traceback
 
 
 def _run_dill_encoded(payload):
@@ -10,6 +11,38 @@ def _run_dill_encoded(payload):
     res = fun(args, **kwargs)
     res = dill.dumps(res)
     return res
+
+
+class _TaskFailure:
+    """
+    Carries an exception raised by a task in a worker process back to the parent, so
+    that ParallelMap.__call__() can re-raise it instead of waiting forever for a result
+    that will never arrive.
+    """
+
+    def __init__(self, exception):
+        self.message = "".join(
+            traceback.format_exception(
+                type(exception), exception, exception.__traceback__
+            )
+        )
+        try:
+            self.pickled_exception = dill.dumps(exception)
+        except Exception:
+            self.pickled_exception = None
+
+    def reraise(self):
+        exception = None
+        if self.pickled_exception is not None:
+            try:
+                exception = dill.loads(self.pickled_exception)
+            except Exception:
+                exception = None
+        if not isinstance(exception, BaseException):
+            raise RuntimeError("Task failed in worker process:\n" + self.message)
+        raise exception from RuntimeError(
+            "Task failed in worker process:\n" + self.message
+        )
 
 
 class ParallelMap:
@@ -69,9 +102,13 @@ class ParallelMap:
         f_Z = equilibrium.f_Z
         while True:
             i, function, args, kwargs = task_queue.get()
-            result = function(
-                *args, equilibrium=equilibrium, psi=psi, f_R=f_R, f_Z=f_Z, **kwargs
-            )
+            try:
+                result = function(
+                    *args, equilibrium=equilibrium, psi=psi, f_R=f_R, f_Z=f_Z, **kwargs
+                )
+            except Exception as e:
+                # Report the failure to the parent, and keep this worker alive
+                result = _TaskFailure(e)
             result_queue.put((i, result))
 
     def __call__(self, function, args_list, **kwargs):
@@ -98,6 +135,13 @@ class ParallelMap:
         for count in range(n_tasks):
             i, this_result = self.result_queue.get()
             result[i] = this_result
+
+        # All tasks have been collected, so the queues are clean for the next call.
+        # Fail like the serial version would: with the exception of the first failing
+        # task in list order.
+        for this_result in result:
+            if isinstance(this_result, _TaskFailure):
+                this_result.reraise()
 
         if not self.task_queue.empty():
             raise ValueError("Some tasks not finished")
